@@ -2,10 +2,19 @@
 import os
 ENV = os.path.join(os.path.dirname(os.path.dirname(os.path.abspath(__file__))), "env")
 
+VALUE_SUBST = [
+    ("unreachable!()", "vstd::pervasive::unreached()", 0, "R15 unreachable! (if present)"),
+    (r"re:(?s)cursor\s*\.evaluate\(\)\s*\.and_then\(\|v\|\s*v\.(\w+)\(\)\)\s*\.map\(VarType::(\w+)\)",
+     r"(match cursor.evaluate() { Some(v) => match v.\1() { Some(x_) => Some(VarType::\2(x_)), None => None }, None => None })", 0, "R7 Option::and_then + map(constructor) (if present)"),
+    (r"re:(?s)cursor\s*\.evaluate\(\)\s*\.and_then\(\|v\|\s*v\.(\w+)\(\)\)(?!\s*\.map)",
+     r"(match cursor.evaluate() { Some(v) => v.\1(), None => None })", 0, "R7 Option::and_then (if present)"),
+    (r"re:(?s)val\.map\(\|val\|\s*\{(.*?)\}\)(?=\s*\}\s*else if)", r"(match val { Some(val) => Some({\1}), None => None })", 0, "R7 Option::map (if present)"),
+]
+
 UNIT = {
     "name": "char_macro",
     "env": [os.path.join(ENV, "char_macro_env.rs")],
-    "declared_trusted": {r"external_body": 20},
+    "declared_trusted": {r"external_body": 26},
     "items": [
         {"kind": "enum", "file": "bindgen/ir/var.rs", "name": "VarType"},
         # C05 (a constant carries the C value "or is omitted"): a floating-point constant only for variables whose Rust type IS a float
@@ -16,6 +25,20 @@ UNIT = {
                      "prefix": "{", "suffix": "; is_float }"},
          "subst": [(r"re:(?s)canonical_ty\.is_some_and\(\|t\|\s*(.*?)\)\s*;", r"(match canonical_ty { Some(t) => \1, None => false });", 1, "R7 Option::is_some_and")],
          "ensures": ["r ==> canonical_ty.is_some() && (canonical_ty.unwrap().s_kind() == TypeKind::Float(FloatKind::Float) || canonical_ty.unwrap().s_kind() == TypeKind::Float(FloatKind::Double))"]},
+        # C05: the constant a variable's initialiser becomes has the shape of the variable's type (an integer or bool for integer
+        # types, a float for float / double, otherwise at most a string literal)
+        {"kind": "fn", "file": "bindgen/ir/var.rs", "name": "var_value", "impl": r"^impl ClangSubItemParser for Var$", "ret": "r",
+         "closure": {"enclosing": "parse", "anchor_re": r"(?m)^\s*let value\s*=\s*if\b", "nth": 0, "stmt": "let",
+                     "signature": "fn var_value(is_const: bool, is_integer: bool, is_float: bool, canonical_ty: Option<&Type>, cursor: clang::Cursor) -> (r: Option<VarType>)",
+                     "prefix": "{", "suffix": "; value }"},
+         "subst": VALUE_SUBST,
+         # how `is_integer` is computed two statements above: canonical_ty.is_some_and(|t| t.is_integer())
+         "requires": ["is_integer ==> canonical_ty.is_some() && canonical_ty.unwrap().s_kind() is Int"],
+         "ensures": [
+             "is_integer && r.is_some() ==> (if canonical_ty.unwrap().s_kind() == TypeKind::Int(IntKind::Bool) { r.unwrap() is Bool } else { r.unwrap() is Int })",
+             "!is_integer && is_float && r.is_some() ==> r.unwrap() is Float",
+             "!is_integer && !is_float && r.is_some() ==> r.unwrap() is String",
+         ]},
         # C05: "Function-like macros are never emitted as constants": whatever callbacks are registered, a function-like macro
         # does not reach the expression evaluator (statements R18, from the check up to the use of the value)
         {"kind": "fn", "file": "bindgen/ir/var.rs", "name": "macro_value", "impl": r"^impl ClangSubItemParser for Var$", "ret": "r",
@@ -45,3 +68,16 @@ UNIT = {
          ]},
     ],
 }
+
+# Known finding F39 (witness): a NON-const global with a constant initialiser (`int counter = 5;`) is bound as a Rust
+# `pub const` - the binding never reads the C variable and cannot write it; C04 demands "the declared type and mutability".
+# Expected to FAIL on the unchanged tree: the value statement does not look at is_const (and Var::codegen emits a constant
+# whenever a value is present).
+import copy as _copy
+_w = _copy.deepcopy(next(i for i in UNIT["items"] if i.get("name") == "var_value"))
+_w["rename"] = "var_value__nonconst"
+_w["rename_tag"] = "@nonconst_initialised_F39"
+_w["witness"] = True
+_w["closure"]["signature"] = _w["closure"]["signature"].replace("fn var_value(", "fn var_value__nonconst(")
+_w["ensures"] = ["!is_const ==> r.is_none()"]
+UNIT["items"].append(_w)
